@@ -653,9 +653,11 @@ class RiscvParser(Parser):
                 )
             else:
                 # in line label
+                # (pop: a pseudo instruction expands to several entries with the same line number,
+                # the label belongs to the first of them only)
                 if line_number in self.in_line_labels:
                     self._add_label_mapping(
-                        self.in_line_labels[line_number],
+                        self.in_line_labels.pop(line_number),
                         instruction_address,
                         line_number,
                         line,
